@@ -64,7 +64,8 @@ class Origin:
         return ("constof", op["ty"])
 
     def place(self, p, at, depth=0):
-        path = tuple(self._proj_key(e, at, depth) for e in p["proj"])
+        # derefs are transparent (an expression names the referenced value), so they are dropped
+        path = tuple(k for k in (self._proj_key(e, at, depth) for e in p["proj"]) if k[0] != "deref")
         return self._resolve(p["l"], path, at, depth)
 
     # ------------------------------------------------------------ internals
@@ -238,10 +239,11 @@ class Origin:
                     # a store through a deref of a pointer local (*_x).f = v : local is a pointer
                     rel, qq = related(q)
                     if rel:
+                        # either a definition of (a prefix of) the wanted place, or an overlay on it whose
+                        # base value is resolved recursively from this point: stop this path in both cases
                         res.append(("partial", bi, idx, st, qq))
-                        if len(qq) <= len(want):
-                            stopped = True
-                            break
+                        stopped = True
+                        break
                 elif st["k"] == "setdiscr" and st["p"]["l"] == local and not want:
                     res.append(("partial", bi, idx, st, ()))
                 idx -= 1
@@ -264,8 +266,7 @@ class Origin:
                     rel, qq = related(q)
                     if rel:
                         res.append(("callpartial", p, t, qq))
-                        if len(qq) <= len(want):
-                            continue
+                        continue
                 if (p, local) in seen:
                     continue
                 seen.add((p, local))
@@ -454,6 +455,21 @@ KINDS = {"param", "const", "str", "fn", "unit", "named", "constof", "field", "va
          "call", "icall", "bin", "un", "cast", "discr", "len", "agg", "tuple", "array", "closure", "phi", "loop",
          "upd", "try", "okval", "residual", "some", "errval", "conv", "ovf", "transmute", "repeat", "undef",
          "uninit", "deep", "other", "fromresidual", "setdiscr", "proj", "aggother", "tls"}
+
+
+def root(e):
+    """identity of the object an expression denotes, looking through field updates and agreeing phis"""
+    while isinstance(e, tuple) and e:
+        if e[0] == "upd":
+            e = e[1]
+        elif e[0] == "phi":
+            rs = {root(x) for x in e[1]}
+            if len(rs) == 1:
+                return list(rs)[0]
+            return e
+        else:
+            return e
+    return e
 
 
 def strip(e):
